@@ -160,42 +160,42 @@ theorem C06_image_covers_generated_acks (s s' : PSys) (i : Nat) (h : applyEvent 
 /-- **A released vote stays covered by the durable state forever** (in particular after any crash
 and restart): the voter's durable term is beyond the vote's term, or equals it with the durable
 vote naming the same candidate. -/
-theorem C06_vote_promise_durable (c0 : Cfg) (s : PSys) (hr : ReachC c0 s) (g : Grant)
+theorem C06_vote_promise_durable (s : PSys) (hr : Reach s) (g : Grant)
     (hg : g ∈ s.grants) :
     g.term < (s.nodes g.voter).dterm ∨
       (g.term = (s.nodes g.voter).dterm ∧ (s.nodes g.voter).dvote = g.cand) :=
-  ((invV_reach c0 s hr).g1 g hg).2
+  ((invV_reachR s hr).g1 g hg).2
 
 /-- **At most one candidate per term, ever**, per voter (across incarnations). -/
-theorem C06_one_vote_per_term_ever (c0 : Cfg) (s : PSys) (hr : ReachC c0 s)
+theorem C06_one_vote_per_term_ever (s : PSys) (hr : Reach s)
     (g1 g2 : Grant) (h1 : g1 ∈ s.grants) (h2 : g2 ∈ s.grants)
     (ht : g1.term = g2.term) (hv : g1.voter = g2.voter) : g1.cand = g2.cand := by
-  have I := invV_reach c0 s hr
+  have I := invV_reachR s hr
   exact I.gc g1.voter g1 g2 (Or.inr ⟨h1, rfl⟩) (Or.inr ⟨h2, hv.symm⟩) ht
 
 /-- the durable term is never behind a released vote request or acknowledgement, at any later time -/
-theorem C06_term_promise_durable (c0 : Cfg) (s : PSys) (hr : ReachC c0 s) :
+theorem C06_term_promise_durable (s : PSys) (hr : Reach s) :
     (∀ r ∈ s.reqs, r.term ≤ (s.nodes r.cand).dterm) ∧ (∀ a ∈ s.acks, a.term ≤ (s.nodes a.frm).dterm) :=
-  ⟨(invR_reach c0 s hr).rq, (invR_reach c0 s hr).ak⟩
+  ⟨(invR_reachR s hr).rq, (invR_reachR s hr).ak⟩
 
 /-- the volatile state is never behind the durable one, and a node that restarts is therefore never
 behind any vote it released: its term is at least the vote's term and, if equal, its vote is that
 candidate -/
-theorem C06_restart_not_behind_votes (c0 : Cfg) (s s' : PSys) (hr : ReachC c0 s) (i : Nat)
+theorem C06_restart_not_behind_votes (s s' : PSys) (hr : Reach s) (i : Nat)
     (h : applyEvent s (.restart i) = .ok s') (g : Grant) (hg : g ∈ s.grants) (hv : g.voter = i) :
     g.term < (s'.nodes i).term ∨ (g.term = (s'.nodes i).term ∧ (s'.nodes i).vote = g.cand) := by
   have hd := C06_restart_from_durable s s' i h
-  have := C06_vote_promise_durable c0 s hr g hg
+  have := C06_vote_promise_durable s hr g hg
   rw [hv] at this
   rw [hd.1, hd.2.1]
   exact this
 
 /-- **A leader's term and self-vote are durable**: whatever a node sends as leader of a term is
 sent while `(term, vote = self)` is in its durable image. -/
-theorem C06_leader_durable (c0 : Cfg) (s : PSys) (hr : ReachC c0 s) (i : Nat)
+theorem C06_leader_durable (s : PSys) (hr : Reach s) (i : Nat)
     (h : (s.nodes i).role = 2) :
     (s.nodes i).dterm = (s.nodes i).term ∧ (s.nodes i).dvote = i := by
-  have := (invV_reach c0 s hr).ld i h
+  have := (invV_reachR s hr).ld i h
   exact ⟨this.2.1, this.2.2.1⟩
 
 /-- leader traffic (append, heartbeat, snapshot) is released only by a node in the leader role -/
